@@ -85,26 +85,45 @@ func (ro *Roles) retrigger(r *Report, rule string) {
 		what string
 	}
 	var evs []ev
-	for _, st := range ro.storesTo(ro.Completed, "PipelineJob.Completed", func(s *ssa.Store) bool { return isBoolConst(s.Val, true) }) {
-		evs = append(evs, ev{ro.Completed, st, "a job leaves the running set (Completed = true)"})
-	}
-	for _, st := range ro.storesTo(ro.Start, "PipelineJob.Canceled", func(s *ssa.Store) bool { return isBoolConst(s.Val, true) }) {
-		evs = append(evs, ev{ro.Start, st, "a popped job fails to start (graph error)"})
-	}
-	for _, st := range ro.storesTo(ro.Expiry, "PipelineJob.startTimer", func(s *ssa.Store) bool { return isNilConst(s.Val) }) {
-		evs = append(evs, ev{ro.Expiry, st, "the head's delay expires (startTimer = nil)"})
-	}
-	// cancel of a waiting job: the marking on the unstarted path
-	if ro.MarkCanceled != nil {
-		for _, ci := range findCalls(ro.CancelInt, func(_ string, c *ssa.CallCommon) bool { return c.StaticCallee() == ro.MarkCanceled }) {
-			evs = append(evs, ev{ro.CancelInt, ci, "a waiting job is canceled (it leaves the wait list; the head may change)"})
+	// an event may sit in a helper of its anchor (region = the anchor and the helpers spliced into it)
+	region := func(f *ssa.Function) []*ssa.Function { return append([]*ssa.Function{f}, ro.helpersOf(f)...) }
+	for _, f := range region(ro.Completed) {
+		for _, st := range ro.storesTo(f, "PipelineJob.Completed", func(s *ssa.Store) bool { return isBoolConst(s.Val, true) }) {
+			evs = append(evs, ev{ro.Completed, st, "a job leaves the running set (Completed = true)"})
 		}
 	}
-	for _, st := range ro.storesTo(ro.CancelInt, "PipelineJob.Canceled", func(s *ssa.Store) bool { return isBoolConst(s.Val, true) }) {
-		evs = append(evs, ev{ro.CancelInt, st, "a waiting job is canceled (it leaves the wait list; the head may change)"})
+	for _, f := range region(ro.Start) {
+		for _, st := range ro.storesTo(f, "PipelineJob.Canceled", func(s *ssa.Store) bool { return isBoolConst(s.Val, true) }) {
+			evs = append(evs, ev{ro.Start, st, "a popped job fails to start (graph error)"})
+		}
+	}
+	for _, f := range region(ro.Expiry) {
+		for _, st := range ro.storesTo(f, "PipelineJob.startTimer", func(s *ssa.Store) bool { return isNilConst(s.Val) }) {
+			evs = append(evs, ev{ro.Expiry, st, "the head's delay expires (startTimer = nil)"})
+		}
+	}
+	// cancel of a waiting job: the marking on the unstarted path
+	for _, f := range region(ro.CancelInt) {
+		if f == ro.MarkCanceled {
+			continue
+		}
+		if ro.MarkCanceled != nil {
+			for _, ci := range findCalls(f, func(_ string, c *ssa.CallCommon) bool { return c.StaticCallee() == ro.MarkCanceled }) {
+				evs = append(evs, ev{ro.CancelInt, ci, "a waiting job is canceled (it leaves the wait list; the head may change)"})
+			}
+		}
+		for _, st := range ro.storesTo(f, "PipelineJob.Canceled", func(s *ssa.Store) bool { return isBoolConst(s.Val, true) }) {
+			evs = append(evs, ev{ro.CancelInt, st, "a waiting job is canceled (it leaves the wait list; the head may change)"})
+		}
 	}
 	for _, e := range evs {
-		res := ro.dequeueCallAfter(e.fn, e.in)
+		res := ro.dequeueCallAfter(e.in.Parent(), e.in)
+		if res.Found && e.in.Parent() != e.fn {
+			// the helper returns without the dequeue: its caller must do it on every path after the call
+			if at := ro.liftTo(e.fn, e.in); at != nil {
+				res = ro.dequeueCallAfter(e.fn, at)
+			}
+		}
 		r.Check(!res.Found, rule, FuncName(e.fn)+": "+e.what, w.InstrPos(e.in),
 			"every path from the event to a return passes a call of the dequeue function",
 			"after this event a return is reachable without a dequeue attempt ("+res.String()+"): a free slot or an eligible head is not noticed until some unrelated event happens — queued jobs can wait forever")
@@ -185,10 +204,23 @@ func (ro *Roles) expiryHandler(r *Report, rule string) {
 								idVal = w.Resolve(st2.Val)
 							}
 						}
+						// the job comes from a constructor helper that stores one of its parameters into ID
+						if ctor, ok := w.Resolve(fa.X).(*ssa.Call); ok && idVal == nil {
+							if g := ctor.Call.StaticCallee(); g != nil && g.Blocks != nil && w.InModule(g) {
+								for _, st2 := range ro.storesToAny(g, "PipelineJob.ID", nil) {
+									if p, ok := w.Resolve(st2.Val).(*ssa.Parameter); ok && p.Parent() == g {
+										if i := paramIdxOf(p); i >= 0 && i < len(ctor.Call.Args) {
+											idVal = w.Resolve(ctor.Call.Args[i])
+										}
+									}
+								}
+							}
+						}
 					}
 					allInstrs(cl, func(in ssa.Instruction) {
 						if c, isC := in.(*ssa.Call); isC && c.Call.StaticCallee() == ro.Expiry {
-							if a := c.Call.Args[len(c.Call.Args)-1]; idVal != nil && w.Resolve(a) == idVal {
+							a := c.Call.Args[len(c.Call.Args)-1]
+							if idVal != nil && w.Resolve(a) == idVal || w.AP(a) == job+".ID" {
 								callsExpiry = true
 							}
 						}
